@@ -43,6 +43,8 @@ class Getters:
         sb = sb[sb.index('{') + 1:sb.index('\n}')]
         self.state_fields = re.findall(r'^\s*(?:pub )?(\w+):', sb, re.M)
         self.foreign_calls = []
+        self.getter_calls = []
+        self.composite_mode = False
 
     def stable(self, text):
         """same description -> same z3 variable"""
@@ -84,6 +86,22 @@ class Getters:
             sub = Interp(f, {'_1': args[0], '_2': args[1], '_3': args[2]}, glue=self.glue); sub.enums = ENUMS; sub.opaque_ok = True
             return sub.run()
         m = re.search(r'(?:residual_)?properties::<impl State<E>>::(\w+)$', callee)
+        if m and getattr(self, 'composite_mode', False) and m.group(1) not in ('get_or_compute_derivative', 'contributions'):
+            # composite layer: another getter of State is an opaque symbol indexed by the selector it receives
+            sel = []
+            for a in args[1:]:
+                if isinstance(a, SymEnum): sel.append('c')
+                elif isinstance(a, Enum): sel.append(a.name)
+                else: sel.append(re.sub(r'\W', '', self.describe(a)))
+            self.getter_calls.append((m.group(1), tuple(sel)))
+            return ('var', 'G_%s%s' % (m.group(1), ''.join('_' + x for x in sel)))
+        if getattr(self, 'composite_mode', False):
+            mp = re.search(r'::powi::<(?:typenum::)?(?:\w+::)*([PN])(\d)>$', callee)
+            if mp: return ('powi', self.real(args[0]), int(mp.group(2)) * (1 if mp.group(1) == 'P' else -1))
+            mp = re.search(r'::powi::<([PN])Int<(.*)>>$', callee)     # typenum integer: bits B1/B0, most significant first
+            if mp:
+                bits = ''.join(re.findall(r'B([01])', mp.group(2)))
+                return ('powi', self.real(args[0]), int(bits, 2) * (1 if mp.group(1) == 'P' else -1))
         if m and m.group(1) in self.funcs and m.group(1) == 'get_or_compute_derivative':
             f = self.funcs[m.group(1)][0]
             sub = Interp(f, {'_%d' % (k + 1): a for k, a in enumerate(args)}, glue=self.glue); sub.enums = ENUMS; sub.opaque_ok = True
@@ -266,12 +284,108 @@ def check_getters(out, cov, mirpath):
     return queries, g
 
 
+# ---------------------------------------------------------------- composite getters
+def G(name, *sel): return 'G_%s%s' % (name, ''.join('_' + x for x in sel))
+
+
+_T, _V, _N, _RHO = 'S_temperature', 'S_volume', 'S_total_moles', 'S_density'
+# name -> SMT term over the symbols G_<getter>_<selector> (selector 'c' = the composite's own argument), written from the
+# definitions in the documentation of the properties.  Contributions: c = 0 IdealGas, 1 Residual, 2 Total.
+COMPOSITE = {
+    'molar_isochoric_heat_capacity': lambda: '(/ (* %s %s) %s)' % (_T, G('ds_dt', 'c'), _N),
+    'dc_v_dt': lambda: '(/ (+ (* %s %s) %s) %s)' % (_T, G('d2s_dt2', 'c'), G('ds_dt', 'c'), _N),
+    'molar_isobaric_heat_capacity': lambda: '(ite (= c 1) %s (* (/ %s %s) (- %s (/ (* %s %s) %s))))' % (
+        G('residual_molar_isobaric_heat_capacity'), _T, _N, G('ds_dt', 'c'), G('dp_dt', 'c'), G('dp_dt', 'c'), G('dp_dv', 'c')),
+    'molar_entropy': lambda: '(/ %s %s)' % (G('entropy', 'c'), _N),
+    'enthalpy': lambda: '(+ (+ (* %s %s) %s) (* %s %s))' % (_T, G('entropy', 'c'), G('helmholtz_energy', 'c'), G('pressure', 'c'), _V),
+    'molar_enthalpy': lambda: '(/ %s %s)' % (G('enthalpy', 'c'), _N),
+    'molar_helmholtz_energy': lambda: '(/ %s %s)' % (G('helmholtz_energy', 'c'), _N),
+    'internal_energy': lambda: '(+ (* %s %s) %s)' % (_T, G('entropy', 'c'), G('helmholtz_energy', 'c')),
+    'molar_internal_energy': lambda: '(/ %s %s)' % (G('internal_energy', 'c'), _N),
+    'gibbs_energy': lambda: '(+ (* %s %s) %s)' % (G('pressure', 'c'), _V, G('helmholtz_energy', 'c')),
+    'molar_gibbs_energy': lambda: '(/ %s %s)' % (G('gibbs_energy', 'c'), _N),
+    'compressibility': lambda: '(/ %s (* (* %s %s) RGAS))' % (G('pressure', 'c'), _RHO, _T),
+    'dp_drho': lambda: '(* (/ (- %s) %s) %s)' % (_V, _RHO, G('dp_dv', 'c')),
+    'specific_isochoric_heat_capacity': lambda: '(/ %s %s)' % (G('molar_isochoric_heat_capacity', 'c'), G('total_molar_weight')),
+    'specific_isobaric_heat_capacity': lambda: '(/ %s %s)' % (G('molar_isobaric_heat_capacity', 'c'), G('total_molar_weight')),
+    'specific_entropy': lambda: '(/ %s %s)' % (G('molar_entropy', 'c'), G('total_molar_weight')),
+    'specific_enthalpy': lambda: '(/ %s %s)' % (G('molar_enthalpy', 'c'), G('total_molar_weight')),
+    'specific_helmholtz_energy': lambda: '(/ %s %s)' % (G('molar_helmholtz_energy', 'c'), G('total_molar_weight')),
+    'specific_internal_energy': lambda: '(/ %s %s)' % (G('molar_internal_energy', 'c'), G('total_molar_weight')),
+    'specific_gibbs_energy': lambda: '(/ %s %s)' % (G('molar_gibbs_energy', 'c'), G('total_molar_weight')),
+    # residual-only composites
+    'residual_molar_helmholtz_energy': lambda: '(/ %s %s)' % (G('residual_helmholtz_energy'), _N),
+    'residual_molar_entropy': lambda: '(/ %s %s)' % (G('residual_entropy'), _N),
+    'residual_molar_isochoric_heat_capacity': lambda: '(/ (* %s %s) %s)' % (_T, G('ds_res_dt'), _N),
+    'dc_v_res_dt': lambda: '(/ (+ (* %s %s) %s) %s)' % (_T, G('d2s_res_dt2'), G('ds_res_dt'), _N),
+    'residual_molar_isobaric_heat_capacity': lambda: '(- (* (/ %s %s) (- %s (/ (* %s %s) %s))) RGAS)' % (
+        _T, _N, G('ds_res_dt'), G('dp_dt', 'Total'), G('dp_dt', 'Total'), G('dp_dv', 'Total')),
+    'residual_enthalpy': lambda: '(+ (+ (* %s %s) %s) (* %s %s))' % (_T, G('residual_entropy'), G('residual_helmholtz_energy'), G('pressure', 'Residual'), _V),
+    'residual_molar_enthalpy': lambda: '(/ %s %s)' % (G('residual_enthalpy'), _N),
+    'residual_internal_energy': lambda: '(+ (* %s %s) %s)' % (_T, G('residual_entropy'), G('residual_helmholtz_energy')),
+    'residual_molar_internal_energy': lambda: '(/ %s %s)' % (G('residual_internal_energy'), _N),
+    'residual_gibbs_energy': lambda: '(- (+ (* %s %s) %s) (* (* (* %s RGAS) %s) (u_ln %s)))' % (
+        G('pressure', 'Residual'), _V, G('residual_helmholtz_energy'), _N, _T, G('compressibility', 'Total')),
+    'residual_molar_gibbs_energy': lambda: '(/ %s %s)' % (G('residual_gibbs_energy'), _N),
+    # derived coefficients (total contributions by definition)
+    'joule_thomson': lambda: '(/ (- (+ %s (/ (* %s %s) %s))) (* %s %s))' % (_V, _T, G('dp_dt', 'Total'), G('dp_dv', 'Total'), _N, G('molar_isobaric_heat_capacity', 'Total')),
+    'isentropic_compressibility': lambda: '(/ (- %s) (* (* %s %s) %s))' % (G('molar_isochoric_heat_capacity', 'Total'), G('molar_isobaric_heat_capacity', 'Total'), G('dp_dv', 'Total'), _V),
+    'thermal_expansivity': lambda: '(/ (/ (- %s) %s) %s)' % (G('dp_dt', 'Total'), G('dp_dv', 'Total'), _V),
+    'grueneisen_parameter': lambda: '(* (/ %s (* %s %s)) %s)' % (_V, _N, G('molar_isochoric_heat_capacity', 'Total'), G('dp_dt', 'Total')),
+    'isothermal_compressibility': lambda: '(/ (- 1.0) (* %s %s))' % (G('dp_dv', 'Total'), _V),
+    'structure_factor': lambda: '(- (/ (* (* RGAS %s) %s) (* %s %s)))' % (_T, _RHO, _V, G('dp_dv', 'Total')),
+}
+
+
+def check_composites(out, g):
+    """composite getters: executed from their MIR with every other State getter as an opaque symbol indexed by the selector
+    it receives; z3 decides that the composite equals its defining formula with the composite's own selector passed on"""
+    queries = []
+    g.composite_mode = True
+    for name, spec_f in COMPOSITE.items():
+        if name not in g.funcs:
+            out.inconclusive.append('composite getter %s not found in the MIR dump' % name); continue
+        g.foreign_calls = []; g.getter_calls = []
+        try:
+            term = g.run(name)
+        except Exception as e:
+            out.inconclusive.append('composite getter %s: MIR interpretation failed: %r' % (name, e)); continue
+        decls, axioms = set(), set()
+
+        def conv(t):
+            if isinstance(t, tuple) and t and t[0] == 'opq': return g.stable(t[1])
+            if isinstance(t, tuple): return tuple(conv(x) if isinstance(x, tuple) else x for x in t)
+            return t
+        try:
+            got = smt(conv(term), decls, axioms)
+        except Exception as e:
+            out.inconclusive.append('composite getter %s: result is not a real term: %r' % (name, e)); continue
+        spec = spec_f()
+        names = set(n for k, n in decls if k == 'real') | set(re.findall(r'\b(?:G_\w+|S_\w+|RGAS)\b', spec))
+        script = ['(set-logic ALL)', '(declare-const c Int)', '(assert (and (>= c 0) (<= c 2)))', '(declare-fun u_ln (Real) Real)']
+        for n_ in sorted(names):
+            if n_ != 'c': script.append('(declare-const %s Real)' % n_)
+        for k_, n_ in sorted(decls):
+            if k_ == 'int' and n_ != 'c': script.append('(declare-const %s Int)' % n_)
+        # denominators of the definition are non-zero (SMT division is total)
+        for n_ in sorted(names):
+            if n_.startswith('S_') or n_.startswith('G_'): script.append('(assert (not (= %s 0.0)))' % n_)
+        script.append('(assert (not (= %s %s)))' % (got, spec))
+        ans, tac, secs = mirfloat.solve('\n'.join(script), timeout=20)
+        queries.append({'getter': name, 'composite': True, 'answer': ans, 'solver_s': round(secs, 2), 'returned': got[:200], 'definition': spec[:200],
+                        'getter_calls': sorted(set('%s(%s)' % (n, ','.join(s_)) for n, s_ in g.getter_calls)), 'foreign_calls': g.foreign_calls[:3]})
+    g.composite_mode = False
+    return queries
+
+
 def getter_map_part(out, prop, cov, role):
     """role: 'C01' (key / sign / dual part of every getter), 'C10' (selector), 'C11' (no cache access besides the keyed lookup).
     The same z3 queries serve all three; a failing query is attributed by a native confirmation (props.NATIVE_BIN getter_checks)."""
     import props
     path, dump_s = mir.dump_mir('feos-core')
     queries, g = check_getters(out, cov, path)
+    if role in ('C01', 'C10'):
+        queries = queries + check_composites(out, g)
     cov['getter_map'] = {'queries': queries, 'mir_dump_s': round(dump_s, 1), 'getters': len(queries),
                          'proved': sum(1 for q in queries if q['answer'] == 'unsat')}
     cov['obligations'] = cov.get('obligations', 0) + len(queries)
@@ -291,15 +405,19 @@ def getter_map_part(out, prop, cov, role):
         name = q['getter']
         hit = None
         if nat is not None:
-            if role == 'C01': hit = [m for m in nat['fd_mismatches'] if m['getter'].split('[')[0] == name]
+            if role == 'C01': hit = [m for m in nat['fd_mismatches'] + nat.get('composite_mismatches', []) if m['getter'].split('[')[0] == name]
             if role == 'C10': hit = [m for m in nat['selector_mismatches'] if m['getter'].split('[')[0] == name]
             if role == 'C11': hit = [m for m in nat['history_mismatches'] if m['then'].split('[')[0] == name]
         if hit:
             what = {'C01': 'is not the derivative of the lower-order property (finite difference on fresh states)',
                     'C10': 'Total differs from IdealGas + Residual', 'C11': 'depends on which getter was evaluated before it'}[role]
+            if q.get('composite'):
+                what = {'C01': 'differs from its defining formula evaluated with the base getters', 'C10': 'Total differs from IdealGas + Residual'}[role]
+                form = 'does not equal its defining formula with the selector passed on to every getter it uses (%s) on its MIR (z3: sat; getters used: %s)' % (q['definition'], q['getter_calls'])
+            else:
+                form = 'does not reduce to sel(c, ideal, %s R[%s]) on its MIR (z3: sat; foreign calls %s)' % ('+' if q['sign'] > 0 else '-', q['key'], q['foreign_calls'])
             out.violation({'engine': 'E-M', 'site': 'State::%s' % name},
-                          '%s: State::%s does not reduce to sel(c, ideal, %s R[%s]) on its MIR (z3: sat; foreign calls %s) and natively %s: %s' % (
-                              prop, name, '+' if q['sign'] > 0 else '-', q['key'], q['foreign_calls'], what, json.dumps(hit[0])),
+                          '%s: State::%s %s and natively %s: %s' % (prop, name, form, what, json.dumps(hit[0])),
                           {'native_cmd': '%s getter_checks' % props.NATIVE_BIN, 'native': hit[:3], 'query': q})
         else:
             # the getter deviates from the specified plumbing, but this property's own native formulation does not show it
